@@ -164,7 +164,15 @@ def r_gather(repo, rep, R='R11.3'):
     chunks_call = [c for c in calls if c[1] in (N(cfn.name), N(mod.aliases.get(cfn.name, cfn.name)), N('_chunks'))]
     d_doc, d_sc = st.env.get('doc', N('doc')), st.env.get('score_results', N('score_results'))
     zipped = ('call', N('list'), (('call', N('zip'), (d_doc, d_sc), ()),), ())
-    if mode == 'items':
+    parallel = None
+    if mode == 'items' and len(chunks_call) == 2 and {c[2][0] for c in chunks_call} == {d_doc, d_sc} and chunks_call[0][2][1:] == chunks_call[1][2][1:]:
+        # both lists (validated to have the same length) are cut by the same splitter into the same number of pieces,
+        # and the pieces are paired by position
+        cd = [c for c in chunks_call if c[2][0] == d_doc][0]
+        cs_ = [c for c in chunks_call if c[2][0] == d_sc][0]
+        parallel = ('call', N('zip'), (cd, cs_), ())
+        ok = True
+    elif mode == 'items':
         ok = bool(chunks_call) and chunks_call[0][2][0] == zipped
     else:
         # one sequence of slices for both lists (validated to have the same length)
@@ -180,7 +188,7 @@ def r_gather(repo, rep, R='R11.3'):
     oktasks = False
     if args_t is not None and tasks:
         en, filt = tasks[0][2][0]
-        oktasks = en[0] == 'call' and en[1] == N('enumerate') and bool(chunks_call) and en[2] == (chunks_call[0],) and not en[3] and not filt
+        oktasks = en[0] == 'call' and en[1] == N('enumerate') and bool(chunks_call) and en[2] == ((parallel,) if parallel is not None else (chunks_call[0],)) and not en[3] and not filt
         elems = [x for x in subterms(args_t) if x[0] == 'elem' and x[1] == en]
         if elems:
             chunk = ('unpack', elems[0], 1)
@@ -188,7 +196,10 @@ def r_gather(repo, rep, R='R11.3'):
             want_head = (('call', N('list'), (('unpack', z, 0),), ()), ('call', N('list'), (('unpack', z, 1),), ()))
             if mode == 'slices':
                 want_head = (('sub', d_doc, chunk), ('sub', d_sc, chunk))
-            okargs = args_t[0] == 'binop' and len(args_t) == 4 and args_t[1] == '+' and args_t[2] == ('tuple', want_head) \
+            if parallel is not None:
+                want_head = (('unpack', chunk, 0), ('unpack', chunk, 1))
+            okargs = ((args_t[0] == 'binop' and len(args_t) == 4 and args_t[1] == '+' and args_t[2] == ('tuple', want_head))
+                      or (args_t[0] == 'tuple' and args_t[1][:2] == want_head)) \
                 and bool(sub[0][2]) and sub[0][2][0] == A(A(N('depccg'), '_parsing'), 'run')
     rep.check(okargs, R, w, 'run:chunk-args', 'each worker gets the sentences and the scores of its own chunk, in chunk order', 'worker args are %s' % (show(args_t)[:120] if args_t else None))
     rep.check(oktasks, R, w, 'run:tasks-in-order', 'one task per chunk, kept in a list in submission (= chunk) order',
@@ -213,7 +224,8 @@ def r_gather(repo, rep, R='R11.3'):
     rep.check(okd, R, w, 'run:direct', 'a small batch is parsed in-process with the whole (doc, scores) in order', 'direct path returns %s' % (show(direct[0].ret)[:80] if direct else None))
     # same positional/keyword arguments on both paths
     a_direct = direct[0].ret[2][2:] if okd else None
-    same = okd and args_t is not None and args_t[0] == 'binop' and len(args_t) == 4 and args_t[3] == ('tuple', a_direct)
+    same = okd and args_t is not None and ((args_t[0] == 'binop' and len(args_t) == 4 and args_t[3] == ('tuple', a_direct))
+                                           or (args_t[0] == 'tuple' and args_t[1][2:] == a_direct))
     rep.check(bool(same), R, w, 'run:same-args', 'both paths pass the same categories / rule functions / roots', 'pooled and direct paths pass different fixed arguments')
     kwd = kw.get('kwds')
     okk = kwd is not None and kwd[0] == 'dict' and any(k is None and v == dict(direct[0].ret[3]).get(None, v) for k, v in kwd[1]) if okd else False
